@@ -201,7 +201,11 @@ func (t *ImmutableTree) VerifyProof(proof *ics23.CommitmentProof, key []byte) (b
 
 // GetVersionedProof gets the proof for the given key at the specified version.
 func (tree *MutableTree) GetVersionedProof(key []byte, version int64) (*ics23.CommitmentProof, error) {
-	if tree.VersionExists(version) {
+	exists, err := tree.versionExists(version)
+	if err != nil {
+		return nil, err
+	}
+	if exists {
 		t, err := tree.GetImmutable(version)
 		if err != nil {
 			return nil, err
